@@ -82,7 +82,7 @@ def run(ctx, rep):
                 if not is_loader:
                     for c, what in [(x, 'name') for x in i_ins] + [(x, 'id') for x in m_ins]:
                         tgt = ix if what == 'name' else m
-                        key = canon(b.pexpr_operand(c.args[1]), 0, 1)
+                        key = canon(b.pexpr_operand(c.args[1], 0, frozenset(), (c.bb, "t")), 0, 1)
                         guarded = False
                         for e, t, _ in bool_literals_at(b, c.bb):
                             if e[0] == 'call' and e[1].split('::')[-1] == 'contains_key' and not t:
@@ -107,7 +107,7 @@ def run(ctx, rep):
                 rep.ob('R06.a', fn, label + ': rename removes old before inserting new', ok, ins.where(),
                        'old name removed, then new name inserted' if ok else 'the new name is inserted before the old one is removed: an update that keeps the name deletes the index entry')
                 # the entity's name field is assigned the same new name
-                newname = canon(b.pexpr_operand(ins.args[1]), 0, 1)
+                newname = canon(b.pexpr_operand(ins.args[1], 0, frozenset(), (ins.bb, "t")), 0, 1)
                 assigned = []
                 for blk in sorted(b.reach):
                     for s in b.stmts(blk):
@@ -235,7 +235,7 @@ def run(ctx, rep):
             if not any(y[0] == 'call' and y[3] == nx.bb for y in walk(idx)):
                 continue
             n += 1
-            it = b.pexpr_operand(nx.args[0])
+            it = b.pexpr_operand(nx.args[0], 0, frozenset(), (nx.bb, "t"))
             rev = has_call_last(it, 'rev')
             rep.ob('R06.f', ctx.user_fn_of(df), 'Vec::remove(index from loop)', rev, c.where(),
                    'indexes are visited in reverse' if rev else 'elements are removed by ascending pre-computed index: after the first removal the remaining indexes are stale (wrong element removed or out-of-bounds panic)')
